@@ -423,6 +423,15 @@ def run_open_impl(case, tmpdir):
         res['P'] = snapshot(P, syn, False)
     except Exception as e:   # noqa: BLE001
         res['err'] = f'{type(e).__name__}: {str(e)[:120]}'
+    if case['prekind'] == 'illegal':
+        # the same request on a metadata-only source (no chunk store behind it to complain later)
+        from katdal.datasources import TelstateDataSource, view_l0_capture_stream
+        view, cbid, sn = view_l0_capture_stream(syn.telstate, syn.cbid, syn.stream)
+        try:
+            src = TelstateDataSource(view, cbid, sn, chunk_store=None, preselect=pre_py)
+            res['meta_only'] = f'accepted ({len(src.timestamps)} timestamps)'
+        except Exception as e:   # noqa: BLE001
+            res['meta_only'] = None
     return res
 
 
@@ -469,6 +478,8 @@ def judge_open(ctx, case, mrep, srep, vrep, res):
             return f"illegal preselect {case['pre']} was accepted"
         if res['stage'] != 'open':
             return f"illegal preselect {case['pre']} was only rejected at stage {res['stage']}: {res['err']}"
+        if res.get('meta_only'):
+            return f"illegal preselect {case['pre']} was {res['meta_only']} by a metadata-only TelstateDataSource"
         ctx.tag('rejected')
         return None
     if isinstance(spec, tuple):
